@@ -43,3 +43,9 @@ for pid in ids:
         man["not_applicable"].append({"property_id": pid, "reason": PENDING.get(pid, "check not built yet in this session; no claim is made")})
 json.dump(man, open(os.path.join(ROOT, "MANIFEST.json"), "w"), indent=1)
 print("claimed:", len(man["checks"]), "not claimed:", len(man["not_applicable"]))
+# validate against the schema (jsonschema lives in the tooling venv)
+import subprocess
+v = subprocess.run(["python3-vt", "-c", "import json,jsonschema;jsonschema.validate(json.load(open('/verif/MANIFEST.json')),json.load(open('/root/.vp/MANIFEST.schema.json')));print('MANIFEST.json validates')"], capture_output=True, text=True)
+print((v.stdout or v.stderr).strip().splitlines()[-1] if (v.stdout or v.stderr).strip() else "validation not run")
+if v.returncode != 0:
+    sys.exit(1)
